@@ -103,7 +103,15 @@ func newFakeRegistry(g *dag.Graph, spec *caseSpec) (reg *fakeRegistry, err error
 		for _, n := range refs {
 			d := n.Desc
 			d.ArtifactType = effType(g, n)
-			if n.Annotations != nil {
+			omitAnn := false
+			if spec.Incomplete {
+				// a registry that does not fill in the optional fields
+				if pr.Chance(1, 2) {
+					d.ArtifactType = ""
+				}
+				omitAnn = pr.Chance(1, 2)
+			}
+			if n.Annotations != nil && !omitAnn {
 				d.Annotations = map[string]string{}
 				for k, v := range n.Annotations {
 					d.Annotations[k] = v
